@@ -468,6 +468,9 @@ def rule_R9(P, rep):
                 x = p_
                 continue
             if k == "bin" and not pn.get("asg") and pn["op"] in ("*", "/"):
+                if f == "tv_sec" and pn["op"] == "*" and "double" not in pn.get("t", "double") and "float" not in pn.get("t", ""):
+                    bad = "integer *"       # seconds scaled in an integer type overflow for far deadlines
+                    break
                 x = p_
                 continue
             if k == "bin" and not pn.get("asg") and pn["op"] in ("%", "&", "-", ">>", "<<", "|", "^"):
@@ -476,7 +479,8 @@ def rule_R9(P, rep):
                 bad = "?:"
             break
         rep.ob("R9", "convert_timespec_to_sec uses timespec::%s unmodified (scaled at most)" % f, bad is None,
-               "`%s` is applied to %s: an un-normalised timespec no longer names the instant the caller meant" % (bad, f),
+               "`%s` is applied to %s: an un-normalised timespec (or a deadline centuries ahead, e.g. the wait-forever idiom "
+               "tv_sec = INT64_MAX) no longer names the instant the caller meant" % (bad, f),
                loc=F.loc(m), site="timespec/%s" % f)
     rep.ob("R9", "convert_timespec_to_sec reads both members of the timespec", seen == {"tv_sec", "tv_nsec"}, str(sorted(seen)),
            loc="%s:%d" % (F.file, F.line), site="timespec/members")
